@@ -349,9 +349,14 @@ package dht
 //@   ensures always-an-error: result != nil
 
 // ---- C07 / C14: an outbound query ----
+// issuerok(): fewer than 2^62 transaction IDs have been issued in this process and the issuer's own mutex is free
+//@ spec def issuerok() bool = transactions.DefaultIdIssuer.next < 4611686018427387904 && !held(transactions.DefaultIdIssuer.mu)
+// the process-wide issuer: IDs are the varint encodings of a counter that only goes up (transactions/contracts_verif.go)
 //@ func (*dht.Server).nextTransactionID
-//@   trusted
 //@   option records tid
+//@   requires issuer-usable: issuerok()
+//@   modifies transactions.DefaultIdIssuer.buf, transactions.DefaultIdIssuer.next
+//@   ensures the-encoding-of-the-counter-which-then-advances: result == uvarintstr(old(transactions.DefaultIdIssuer.next)) && transactions.DefaultIdIssuer.next == old(transactions.DefaultIdIssuer.next) + 1
 //@ func (*dht.Server).addTransaction
 //@   requires nonnil: s != nil
 //@   requires fresh-key: !(k in s.transactions.txns)
@@ -366,9 +371,13 @@ package dht
 
 //@ func (*dht.Server).Query@cancelSend
 //@   trusted
+// (lockinv: no pending transaction of this server carries the encoding of a counter value that has not been issued yet --
+// so the ID issued next is not the T of any registered key; the issuer's counter only grows)
 //@ func (*dht.Server).Query
 //@   requires nonnil: s != nil && addr != nil && ctx != nil
 //@   requires unlocked: !held(s.mu)
+//@   requires issuer-usable: issuerok()
+//@   lockinv s.mu protects pending-ids-were-issued: forall k transactions.Key :: (k in s.transactions.txns) ==> (forall c uint64 :: c >= transactions.DefaultIdIssuer.next ==> k.T != uvarintstr(c))
 //@   modifies *
 //@   callsite (*dht.Server).addTransaction registered-under-the-lock-before-sending: wheld(s.mu) && $k.RemoteAddr == addr.String() && $k.T == recorded("tid") && count("go:(*dht.Server).Query$3") == 0
 //@   callsite (*dht.Server).deleteTransaction removed-under-the-lock: wheld(s.mu) && $k.RemoteAddr == addr.String() && $k.T == recorded("tid") && count("call:dynamic:cancelSend") == 1
@@ -568,9 +577,17 @@ package dht
 //@   ensures good-means-acceptable-and-recently-heard-from: result == (!recorded("isbad") && (since(n.lastGotResponse) < 900000000000 || (!iszero(n.lastGotResponse) && since(n.lastGotQuery) < 900000000000)))
 //@   ensures never-answered-is-not-good: iszero(n.lastGotResponse) ==> !result
 
+// dropNode: the entry leaves its bucket and the address index, and nothing else does. It panics (by design) if the
+// entry is not in both -- callers drop only entries they have just found in the table.
 //@ func (*dht.table).dropNode
-//@   trusted
+//@   requires nonnil: tbl != nil && n != nil && n.Addr != nil
 //@   modifies types bucket, table
+//@   panics if n.Id.bits == tbl.rootID.bits || !(n.Id in tbl.addrs[n.Addr.String()]) || !(n in tbl.buckets[bidx(tbl, n.Id)].nodes)
+//@   ensures gone-from-its-bucket: !(n in tbl.buckets[bidx(tbl, n.Id)].nodes)
+//@   ensures the-other-entries-of-that-bucket-stay: forall m *node :: m != n ==> (m in tbl.buckets[bidx(tbl, n.Id)].nodes) == old(m in tbl.buckets[bidx(tbl, n.Id)].nodes)
+//@   ensures the-other-buckets-are-untouched: forall i int :: 0 <= i && i < 160 && old(tbl.buckets[i].nodes) != old(tbl.buckets[bidx(tbl, n.Id)].nodes) ==> tbl.buckets[i].nodes == old(tbl.buckets[i].nodes) && (forall m *node :: (m in tbl.buckets[i].nodes) == old(m in tbl.buckets[i].nodes))
+//@   ensures gone-from-the-address-index: !((n.Addr.String() in tbl.addrs) && (n.Id in tbl.addrs[n.Addr.String()]))
+//@   ensures other-addresses-keep-their-ids: forall a string :: a != n.Addr.String() ==> (a in tbl.addrs) == old(a in tbl.addrs) && tbl.addrs[a] == old(tbl.addrs[a])
 
 // the eviction decision made for each entry of a full bucket: an entry is dropped only if it is bad, or if it has never
 // answered and the newcomer is good -- hence never an entry that is itself good
@@ -719,6 +736,7 @@ package dht
 //@   ensures one-pass: count("call:(*dht/k-nearest-nodes.Type).Range") == 1
 //@ func (*dht.Announce).announceClosest$1
 //@   requires nonnil: a != nil
+//@   requires issuer-usable: issuerok()
 //@   modifies *
 //@   callsite go:(*dht.Announce).announceClosest$1$1 one-announce-for-that-member: $elem == elem && $a == a
 //@   ensures one-announce-per-member: count("go:(*dht.Announce).announceClosest$1$1") == 1
@@ -726,6 +744,7 @@ package dht
 //@   trusted
 //@ func (*dht.Announce).announceClosest$1$1
 //@   requires nonnil: a != nil
+//@   requires issuer-usable: issuerok()
 //@   modifies *
 //@   callsite (*dht.Announce).announcePeer the-member-it-was-spawned-for: $peer == elem && $a == a
 //@   ensures one-announce: count("call:(*dht.Announce).announcePeer") == 1
@@ -737,6 +756,7 @@ package dht
 //@   ensures cancels-when-the-announce-is-closed: offers(donechan(&a.closed)) && (selected(ctx.Done()) || count("call:dynamic:cancel") == 1)
 //@ func (*dht.Announce).announcePeer
 //@   requires nonnil: a != nil && a.server != nil && a.announcePeerOpts != nil && !held(a.server.mu)
+//@   requires issuer-usable: issuerok()
 //@   requires a-token: typeis(peer.Data, string)
 //@   modifies *
 //@   callsite (dht/krpc.NodeAddrPort).UDP the-address-of-that-member: $me == peer.Key.Addr
@@ -748,6 +768,7 @@ package dht
 //@   trusted
 //@ func (*dht.Server).announcePeer
 //@   requires nonnil: s != nil && node != nil && ctx != nil && !held(s.mu)
+//@   requires issuer-usable: issuerok()
 //@   modifies *
 //@   callsite (*dht.Server).Query an-announce_peer-with-these-arguments: $s == s && $q == "announce_peer" && $addr == node && $ctx == ctx && $input.MsgArgs.ImpliedPort == impliedPort && $input.MsgArgs.InfoHash == infoHash.bits && $input.MsgArgs.Port != nil && *$input.MsgArgs.Port == port && $input.MsgArgs.Token == token
 //@   ensures no-port-no-query: port == 0 && !impliedPort ==> count("call:(*dht.Server).Query") == 0
@@ -799,3 +820,14 @@ package dht
 //@   ensures a-store-a-limiter-a-socket: err == nil ==> s.store != nil && s.store.s != nil && !held(s.store.mu) && s.config.SendLimiter != nil && s.socket != nil && !held(s.mu)
 //@   ensures one-read-loop: err == nil ==> count("go:(*dht.Server).serveUntilClosed") == 1
 //@   ensures nothing-started-on-error: err != nil ==> count("go:(*dht.Server).serveUntilClosed") == 0
+
+// questionableNodePing (C06): a failed ping marks the entry, it never adds one; a successful one only refreshes the bucket
+//@ func (*dht.Server).NodeRespondedToPing
+//@   trusted
+//@ func (*dht.Server).questionableNodePing
+//@   requires nonnil: s != nil && addr != nil && ctx != nil && !held(s.mu)
+//@   requires issuer-usable: issuerok()
+//@   modifies *
+//@   callsite (*dht.Server).Query a-ping-tried-three-times: $q == "ping" && $addr == addr && $input.NumTries == 3
+//@   callsite (*dht.Server).updateNode never-adds-an-entry: !$tryAdd && $addr == addr && wheld(s.mu)
+//@   ensures unlocked: !held(s.mu)
